@@ -61,8 +61,7 @@ theorem C05_gen_weights_pos : 0 < Gen.Policy.commitmentBaseWeight ∧ 0 < Gen.Po
 
 /-- core: the common validator `validate_commitment_tx` -/
 theorem validateCommitmentTx_within (p : Policy) (s : Setup) (c : ChainState) (n : Nat) (i : Info)
-    (hf : NonPermissive p) (hmax : p.maxFeerate < U32.MAX)
-    (hcount : i.offered.length + i.received.length ≤ 1048576)
+    (hf : NonPermissive p)
     (h : validateCommitmentTx p s c n i = .ok ()) : WithinBounds p s c n i := by
   have e1 := hf .outputsTrimmed (by simp [commitmentTags])
   have e2 := hf .htlcCountLimit (by simp [commitmentTags])
@@ -87,7 +86,7 @@ theorem validateCommitmentTx_within (p : Policy) (s : Setup) (c : ChainState) (n
   have c4 := check_ok c4 e4
   obtain ⟨hv1, _, hd1, hx1⟩ := checkHtlcs_ok _ _ _ l1
   obtain ⟨hv2, _, hd2, hx2⟩ := checkHtlcs_ok _ _ _ l2
-  have hfee := validateFee_ok f1 e5 (commitmentWeight_pos _ _) (commitmentWeight_le _ _ hcount) hmax
+  have hfee := validateFee_ok f1 e5 (commitmentWeight_pos _ _)
   simp at c1 c2 c3 c4
   refine ⟨by omega, by omega, by omega, ?_, ?_, by omega, ?_, ?_, ?_⟩
   · intro x hx; exact hd1 e1 x hx
@@ -109,40 +108,28 @@ theorem validateCommitmentTx_within (p : Policy) (s : Setup) (c : ChainState) (n
     have g2 := of_decide_eq_false (check_ok h e7)
     exact Nat.le_trans (Nat.mul_le_mul_right 1000 (Nat.le_of_not_gt g2)) (Nat.div_mul_le_self s.pushMsat 1000)
 
-/-- **C05 (main), proved part.**  For every policy whose filter keeps the commitment tags errors and whose
-    `max_feerate_per_kw` is below the `u32::MAX` sentinel, every setup, chain state, enforcement state,
-    commitment number and content (all naturals, in particular all 64-bit values; at most 2^20 HTLCs,
-    the protocol allows 966): if the validator (simple or on-chain, `use_chain_state` on or off, holder or
-    counterparty commitment) accepts, the commitment is `WithinBounds`. -/
-theorem C05_main_partial (p : Policy) (s : Setup) (c : ChainState) (e : EState) (n : Nat) (i : Info) (point : Nat)
-    (hf : NonPermissive p) (hmax : p.maxFeerate < U32.MAX)
-    (hcount : i.offered.length + i.received.length ≤ 1048576)
+/-- **C05 (main).**  For every policy whose filter keeps the commitment tags errors, every setup, chain
+    state, enforcement state, commitment number and content (all naturals, in particular all 64-bit
+    values, any number of HTLCs): if the validator (simple or on-chain, `use_chain_state` on or off, holder
+    or counterparty commitment) accepts, the commitment is `WithinBounds`.  Full strength: since fix
+    3751e9c `validate_fee` compares the exact rate, so no side condition on `max_feerate_per_kw` remains. -/
+theorem C05_main (p : Policy) (s : Setup) (c : ChainState) (e : EState) (n : Nat) (i : Info) (point : Nat)
+    (hf : NonPermissive p)
     (h : validateCommitment p s c e n i point = .ok ()) : WithinBounds p s c n i :=
-  validateCommitmentTx_within p s c n i hf hmax hcount (validateCommitment_tx p s c e n i point h)
+  validateCommitmentTx_within p s c n i hf (validateCommitment_tx p s c e n i point h)
 
-/-- The policy of the refutation below: the testnet default with `max_feerate_per_kw = u32::MAX` and a
-    raised channel-size cap. -/
+/-- The former counterexample (finding S1, fixed by 3751e9c): the testnet default with
+    `max_feerate_per_kw = u32::MAX` and a raised channel-size cap … -/
 def sentinelPolicy : Policy :=
   { Gen.Policy.defaultTestnet with maxFeerate := U32.MAX, maxChannelSize := 10000000000, onchain := false }
 def sentinelSetup : Setup := ⟨false, 5000000000, 0, 6, 7, .staticRemoteKey, none, false, false⟩
 def sentinelInfo : Info := ⟨true, 0, 0, [], [], 0⟩
 
-/-- **C05 (main) at full strength is false**: without `max_feerate_per_kw < u32::MAX` the statement fails.
-    With the largest configurable bound the clamped estimate can never exceed it, so a commitment leaving
-    the whole 50 BTC channel as fee (6.9·10^9 sat/kw) is accepted.  (Known finding
-    `accepted-fee-above-u32max-sentinel`; replay in notes/C05-C07.md.) -/
-theorem C05_main_full_false :
-    ¬ (∀ (p : Policy) (s : Setup) (c : ChainState) (e : EState) (n : Nat) (i : Info) (point : Nat),
-        NonPermissive p → i.offered.length + i.received.length ≤ 1048576 →
-        validateCommitment p s c e n i point = .ok () → WithinBounds p s c n i) := by
-  intro hall
-  have hnp : NonPermissive sentinelPolicy := by intro t _; rfl
-  have hok : validateCommitment sentinelPolicy sentinelSetup ⟨0, 0, 0⟩ EState.init 0 sentinelInfo 0 = .ok () := by
-    rfl
-  have hw := hall sentinelPolicy sentinelSetup ⟨0, 0, 0⟩ EState.init 0 sentinelInfo 0 hnp (by decide) hok
-  have hfee := hw.fee.2.2
-  revert hfee
-  decide
+/-- … a commitment leaving the whole 50 BTC channel as fee (6.9·10^9 sat/kw) is now refused with the
+    fee-range class even though the bound is the largest representable one. -/
+theorem C05_sentinel_refused :
+    validateCommitment sentinelPolicy sentinelSetup ⟨0, 0, 0⟩ EState.init 0 sentinelInfo 0 = .error .fee := by
+  rfl
 
 /-! ### setup, size, on-chain -/
 
@@ -242,7 +229,6 @@ def mainnetPolicy (onchain : Bool) : Policy := { Gen.Policy.defaultMainnet with 
 example (oc : Bool) : NonPermissive (testnetPolicy oc) := by intro t _; cases oc <;> rfl
 example (oc : Bool) : NonPermissive (mainnetPolicy oc) := by intro t _; cases oc <;> rfl
 example (oc : Bool) (t : Tag) : errs (testnetPolicy oc) t = true := by cases oc <;> rfl
-example : (testnetPolicy false).maxFeerate < U32.MAX ∧ (mainnetPolicy false).maxFeerate < U32.MAX := by decide
 /-- the permissive filter is excluded by the hypothesis, as C05 words it -/
 example : ¬ NonPermissive { testnetPolicy false with filter := permissiveFilter } := by
   intro h
